@@ -43,7 +43,7 @@ EXTRA_MODULES = {
     "C10": ["Tie.Moments", "Tie.ChannelStats"],
     "C11": ["Tie.Plan", "Tie.StreamCalls", "Tie.Fold", "Kernels.Fold"],
     "C12": ["Tie.FftLengths"],
-    "C13": ["Tie.TemplatePrep", "Tie.StatsLane", "Tie.MfCompute"],
+    "C13": ["Tie.TemplatePrep", "Tie.StatsLane", "Tie.MfCompute", "Tie.OnPulse"],
     "C14": ["Kernels.Downsample1d", "Kernels.Downsample2d", "Tie.FilterGeom", "Tie.Detrend", "Tie.DecimWrap"],
     "C15": ["Tie.StatsLane"],
     "C16": ["Kernels.MaskChannels", "Tie.StateMachines", "Tie.StatsLane", "Tie.CleanRfi"],
